@@ -14,18 +14,18 @@ import (
 // ---- weather day alphabet (values exactly representable in the CSV) ---------------------------
 
 var sigma = map[string]proj.Day{
-	"dry-warm":      {Tmin: 12, Tavg: 18, Tmax: 24, Precip: 0, Rad: 20, Wind: 2, RH: 60, Sun: 10},
-	"dry-hot-windy": {Tmin: 20, Tavg: 28, Tmax: 36, Precip: 0, Rad: 28, Wind: 6, RH: 30, Sun: 14},
-	"frost":         {Tmin: -12, Tavg: -7.5, Tmax: -3, Precip: 0, Rad: 4, Wind: 2, RH: 80, Sun: 3},
-	"deep-frost":    {Tmin: -35, Tavg: -30, Tmax: -25, Precip: 0, Rad: 2, Wind: 1, RH: 85, Sun: 1},
-	"drizzle":       {Tmin: 8, Tavg: 11, Tmax: 14, Precip: 2, Rad: 6, Wind: 3, RH: 90, Sun: 1},
-	"rain":          {Tmin: 10, Tavg: 13, Tmax: 16, Precip: 15, Rad: 5, Wind: 3, RH: 95, Sun: 0.5},
-	"heavy":         {Tmin: 12, Tavg: 15, Tmax: 18, Precip: 60, Rad: 4, Wind: 4, RH: 98, Sun: 0},
-	"extreme":       {Tmin: 14, Tavg: 16, Tmax: 18, Precip: 250, Rad: 3, Wind: 5, RH: 99, Sun: 0},
-	"calm-dark":     {Tmin: 4, Tavg: 6, Tmax: 8, Precip: 0, Rad: 0, Wind: 0.1, RH: 95, Sun: 2},
-	"no-sun-no-rad": {Tmin: 4, Tavg: 6, Tmax: 8, Precip: 0, Rad: 0, Wind: 1, RH: 95, Sun: 0},
-	"mild":          {Tmin: 6, Tavg: 10, Tmax: 14, Precip: 1, Rad: 10, Wind: 2.5, RH: 75, Sun: 5},
-	"grow":          {Tmin: 10, Tavg: 16, Tmax: 22, Precip: 3, Rad: 18, Wind: 2, RH: 70, Sun: 8},
+	"dry-warm":      {Tmin: 12, Tavg: 18, Tmax: 24, Precip: 0, Rad: 20, Wind: 2, RH: 60, Sun: 10, ET0: 4.5},
+	"dry-hot-windy": {Tmin: 20, Tavg: 28, Tmax: 36, Precip: 0, Rad: 28, Wind: 6, RH: 30, Sun: 14, ET0: 9},
+	"frost":         {Tmin: -12, Tavg: -7.5, Tmax: -3, Precip: 0, Rad: 4, Wind: 2, RH: 80, Sun: 3, ET0: 0.2},
+	"deep-frost":    {Tmin: -35, Tavg: -30, Tmax: -25, Precip: 0, Rad: 2, Wind: 1, RH: 85, Sun: 1, ET0: 0.1},
+	"drizzle":       {Tmin: 8, Tavg: 11, Tmax: 14, Precip: 2, Rad: 6, Wind: 3, RH: 90, Sun: 1, ET0: 1},
+	"rain":          {Tmin: 10, Tavg: 13, Tmax: 16, Precip: 15, Rad: 5, Wind: 3, RH: 95, Sun: 0.5, ET0: 0.8},
+	"heavy":         {Tmin: 12, Tavg: 15, Tmax: 18, Precip: 60, Rad: 4, Wind: 4, RH: 98, Sun: 0, ET0: 0.5},
+	"extreme":       {Tmin: 14, Tavg: 16, Tmax: 18, Precip: 250, Rad: 3, Wind: 5, RH: 99, Sun: 0, ET0: 0.4},
+	"calm-dark":     {Tmin: 4, Tavg: 6, Tmax: 8, Precip: 0, Rad: 0, Wind: 0.1, RH: 95, Sun: 2, ET0: 0.3},
+	"no-sun-no-rad": {Tmin: 4, Tavg: 6, Tmax: 8, Precip: 0, Rad: 0, Wind: 1, RH: 95, Sun: 0, ET0: 0.3},
+	"mild":          {Tmin: 6, Tavg: 10, Tmax: 14, Precip: 1, Rad: 10, Wind: 2.5, RH: 75, Sun: 5, ET0: 1.5},
+	"grow":          {Tmin: 10, Tavg: 16, Tmax: 22, Precip: 3, Rad: 18, Wind: 2, RH: 70, Sun: 8, ET0: 3},
 }
 
 // ---- soil catalogue ---------------------------------------------------------------------------
@@ -168,11 +168,10 @@ func finite(v float64) bool { return !math.IsNaN(v) && !math.IsInf(v, 0) }
 
 func scratchRoot() string { return proj.TempRoot(mc.Scratch()) }
 
-func writeWeather(root string, p *proj.Project) {
-	if err := os.WriteFile(filepath.Join(root, "weather", "w", "W.csv"), []byte(p.WeatherCSV()), 0o644); err != nil {
-		panic(err)
-	}
-}
+func writeWeather(root string, p *proj.Project) { p.WriteWeather(root) }
+
+var _ = os.Remove
+var _ = filepath.Join
 
 func isoAdd(iso string, d int) string { return proj.D(iso).AddDate(0, 0, d).Format("2006-01-02") }
 
